@@ -566,3 +566,95 @@ Proof.
   split; [apply (H3 _ Hg) | apply (H4 _ Hg)].
 Qed.
 End Hooks.
+
+(* ------------------------------------------------------------------ capture_slice / end_capture_tail over chunk lists *)
+(* what FileInspector._capture does to ONE region over successive chunks (first presentation of each chunk) *)
+Fixpoint feed (r : region) (pos : N) (cs : list bytes) : region :=
+  match cs with
+  | [] => r
+  | c :: t => feed (if r_end r || negb (rcomplete r) then rcapture r c (pos + blen c) else r) (pos + blen c) t
+  end.
+
+Lemma cap1_all c pos n r : cap1 [] c pos (n, r) = (n, if r_end r || negb (rcomplete r) then rcapture r c pos else r).
+Proof. unfold cap1. destruct (r_end r || negb (rcomplete r)); reflexivity. Qed.
+
+Lemma feed_on_track r st cs :
+  r_end r = false -> r_min r = None -> on_track st r ->
+  on_track (st ++ concat cs) (feed r (blen st) cs) /\ r_off (feed r (blen st) cs) = r_off r /\ r_len (feed r (blen st) cs) = r_len r.
+Proof.
+  revert r st. induction cs as [|c t IH]; intros r st He Hm Ht; cbn [feed concat].
+  - rewrite app_nil_r. auto.
+  - pose proof (capture_step st c r Hm Ht He) as (H1 & H2 & H3 & H4 & H5 & H6 & H7).
+    assert (Hr : (if r_end r || negb (rcomplete r) then rcapture r c (blen st + blen c) else r)
+                 = (if rcomplete r then r else cap_fixed r c (blen st + blen c))).
+    { rewrite He. cbn [orb]. unfold rcapture. rewrite He. destruct (rcomplete r); reflexivity. }
+    rewrite Hr.
+    destruct (IH _ (st ++ c) (eq_trans H3 He) (eq_trans H6 Hm) H1) as (G1 & G2 & G3).
+    rewrite blen_app in G1, G2, G3.
+    rewrite app_assoc. split; [exact G1|]. split; congruence.
+Qed.
+
+(* DESIGN C01 item 1: a fixed region without min_length that is empty when the stream position is
+   p <= offset holds, after ANY chunk list (empty chunks allowed), exactly stream[off : off+len] *)
+Theorem capture_slice r st cs :
+  r_end r = false -> r_min r = None -> r_data r = [] -> blen st <= r_off r ->
+  r_data (feed r (blen st) cs) = bslice (r_off r) (r_len r) (st ++ concat cs).
+Proof.
+  intros He Hm Hd Hp.
+  assert (Ht : on_track st r).
+  { unfold on_track. rewrite Hd. unfold bslice. rewrite bskip_all by exact Hp. rewrite btake_nil. reflexivity. }
+  destruct (feed_on_track r st cs He Hm Ht) as (H1 & H2 & H3). unfold on_track in H1. rewrite H1, H2, H3. reflexivity.
+Qed.
+
+(* the last n bytes (all of them when there are fewer) *)
+Definition btail (n : N) (b : bytes) : bytes := bskip (blen b - n) b.
+Lemma blen_btail n b : blen (btail n b) = N.min n (blen b).
+Proof. unfold btail. rewrite blen_bskip. lia. Qed.
+Lemma btail_app n a c : btail n (btail n a ++ c) = btail n (a ++ c).
+Proof.
+  unfold btail. rewrite blen_app, blen_bskip.
+  rewrite <- (bskip_app_le (blen a - n) a c) by lia. rewrite bskip_bskip, blen_app. f_equal. lia.
+Qed.
+Lemma cap_end_data r c pos : 0 < r_len r -> r_data (cap_end r c pos) = btail (r_len r) (r_data r ++ c).
+Proof.
+  intros H. unfold cap_end, nlast. replace (r_len r =? 0) with false by lia.
+  cbn [set_off set_data r_data]. rewrite flen_blen, nskip_bskip. reflexivity.
+Qed.
+Lemma cap_end_fields r c pos :
+  r_end (cap_end r c pos) = r_end r /\ r_len (cap_end r c pos) = r_len r /\ r_min (cap_end r c pos) = r_min r
+  /\ r_off (cap_end r c pos) = pos - blen (r_data (cap_end r c pos)).
+Proof. unfold cap_end. cbn [set_off set_data r_end r_len r_min r_off r_data]. rewrite flen_blen. auto. Qed.
+
+Lemma feed_end_aux r pos cs A :
+  r_end r = true -> 0 < r_len r -> r_data r = btail (r_len r) A ->
+  let r' := feed r pos cs in
+  r_data r' = btail (r_len r) (A ++ concat cs) /\ r_len r' = r_len r /\ r_min r' = r_min r /\ r_end r' = true.
+Proof.
+  revert r pos A. induction cs as [|c t IH]; intros r pos A He Hl Hd; cbn [feed concat]; cbv zeta.
+  - rewrite app_nil_r. auto.
+  - rewrite He. cbn [orb]. unfold rcapture. rewrite He.
+    destruct (cap_end_fields r c (pos + blen c)) as (F1 & F2 & F3 & _).
+    assert (Hd' : r_data (cap_end r c (pos + blen c)) = btail (r_len (cap_end r c (pos + blen c))) (A ++ c)).
+    { rewrite F2, (cap_end_data r c _ Hl), Hd. apply btail_app. }
+    destruct (IH (cap_end r c (pos + blen c)) (pos + blen c) (A ++ c) (eq_trans F1 He) (eq_ind_r (fun x => 0 < x) Hl F2) Hd')
+      as (G1 & G2 & G3 & G4).
+    cbv zeta in *. rewrite G1, G2, G3, F2, F3, <- app_assoc. auto.
+Qed.
+
+(* DESIGN C01 item 3: an EndCaptureRegion(n) that is present (empty) from stream position p0 holds,
+   after any chunk list and finish, the last min(n, total - p0) bytes of the stream, and is complete
+   iff that is n *)
+Theorem end_capture_tail r p0 cs :
+  r_end r = true -> r_min r = None -> 0 < r_len r -> r_data r = [] ->
+  let r' := set_fin (feed r p0 cs) true in
+  r_data r' = btail (r_len r) (concat cs) /\
+  blen (r_data r') = N.min (r_len r) (blen (concat cs)) /\
+  (rcomplete r' = true <-> r_len r <= blen (concat cs)).
+Proof.
+  intros He Hm Hl Hd. cbv zeta.
+  assert (Hd0 : r_data r = btail (r_len r) []) by (rewrite Hd; reflexivity).
+  destruct (feed_end_aux r p0 cs [] He Hl Hd0) as (G1 & G2 & G3 & G4). cbv zeta in *. cbn [app] in G1.
+  cbn [set_fin r_data]. split; [exact G1|]. split; [rewrite G1; apply blen_btail|].
+  unfold rcomplete, base_complete. cbn [set_fin r_end r_min r_len r_data r_fin].
+  rewrite G4, G3, Hm, G2, G1, flen_blen, blen_btail, andb_true_r. lia.
+Qed.
